@@ -6,6 +6,18 @@ HERE = os.path.dirname(os.path.dirname(os.path.abspath(__file__)))
 PROPS = [json.loads(l)['id'] for l in open(os.path.join(HERE, 'properties.jsonl'))]
 
 CHECKS = {
+ 'C07': dict(category='proof', design_ref='DESIGN.md section 4 (C07), Appendix B',
+    text='For the default lexer state: the real ordered matcher table (patterns taken from the compiled objects of the real '
+         'module, parsed with CPython\'s own regex parser) and the real dispatch chain of _process_token (read from its AST) '
+         'are turned into automata; the product with the automata of an independent lexical specification is explored '
+         'exhaustively, deciding for ALL byte strings that the first token picotool reports has the kind and length maximal '
+         'munch dictates (keyword over name, longest operator/numeral/name). Progress (no empty match) and chunk independence '
+         '(no token spans past a newline) are decided the same way. Multi-line states, escape decoding, positions and numeric '
+         'values are checked by a bounded native differential run against a reference tokenizer (labelled bounded).',
+    note='Assumed and cross-checked every run: anchored re.match == longest prefix accepted by the automaton (exhaustive '
+         'comparison with the real re on all strings up to length 4/5 per pattern). The operator set is the dialect picotool '
+         'implements; admitted alternative readings: hex/binary numerals with trailing dot, 1..x.',
+    technique='regular-language decision procedure over the real regex table (product automaton, exhaustive) + bounded native differential'),
  'C05': dict(category='proof', design_ref='DESIGN.md section 4 (C05)',
     text='compress_code is proved (loop invariant with ghost item-boundary lists, callee contract of _find_repeatable_block '
          'itself proved with two nested loop invariants and termination variants) to emit, for EVERY text, a stream that is '
